@@ -28,7 +28,9 @@ StrCase(chars, cfgs) == [in |-> chars, kind |-> "string", runs |-> [i \in 1..Len
 DocCase(doc, lay) ==
   LET chars == Render(doc, lay, 0) IN
   [in |-> chars, kind |-> "json-" \o lay, doc |-> doc, denotes |-> Denotes(doc),
-   runs |-> <<[c |-> DefaultCfg, exp |-> Exp(DefaultCfg, chars)]>>]
+   \* also with IgnoreCommas (every feature on): the option only concerns a TOP-LEVEL comma, never the separators inside brackets
+   runs |-> <<[c |-> DefaultCfg, exp |-> Exp(DefaultCfg, chars)],
+              [c |-> PCfg(TRUE, TRUE, TRUE, TRUE, TRUE), exp |-> Exp(PCfg(TRUE, TRUE, TRUE, TRUE, TRUE), chars)]>>]
 
 Init == in = <<>> /\ ph = "str" /\ cs = <<>>
 Grow == /\ ph = "str" /\ Len(in) < MaxLen
@@ -45,7 +47,8 @@ View == <<in, ph, IF Len(cs) = 1 THEN cs ELSE <<>> >>
 
 (* model-level: C17's round trip and C07's totality on the Ideal layer *)
 RoundTrip == (ph = "doc" /\ Len(cs) = 3) =>
-   Parse({}, DefaultCfg, Render(DocSeq[cs[2]], cs[3], 0)) = [v |-> Denotes(DocSeq[cs[2]])]
+   /\ Parse({}, DefaultCfg, Render(DocSeq[cs[2]], cs[3], 0)) = [v |-> Denotes(DocSeq[cs[2]])]
+   /\ Parse({}, PCfg(TRUE, TRUE, TRUE, TRUE, TRUE), Render(DocSeq[cs[2]], cs[3], 0)) = [v |-> Denotes(DocSeq[cs[2]])]
 NoPanicKnown == \A i \in 1..Len(Cfgs4) : LET r == Parse(Known, Cfgs4[i].c, in) IN ~(IsErr(r) /\ r.err = "panic")
 NoPanic == \A i \in 1..Len(Cfgs4) : LET r == Parse({}, Cfgs4[i].c, in) IN ~(IsErr(r) /\ r.err = "panic")
 
